@@ -308,6 +308,11 @@ func traverseMergeAnchor(newMatches *orderedmap.OrderedMap, value *CandidateNode
 		if value.Alias.Kind != MappingNode {
 			return fmt.Errorf("can only use merge anchors with maps (!!map), but got %v", value.Alias.Tag)
 		}
+		for ancestor := value.Parent; ancestor != nil; ancestor = ancestor.Parent {
+			if ancestor == value.Alias {
+				return fmt.Errorf("a merge anchor refers to a map that contains it")
+			}
+		}
 		return doTraverseMap(newMatches, value.Alias, wantedKey, prefs, splat)
 	case SequenceNode:
 		for _, childValue := range value.Content {
